@@ -709,6 +709,13 @@ class SMCSamples(BaseSamples):
             out += f"Log evidence: {self.log_evidence:.2f}\n"
         return out
 
+    def to_namespace(self, xp, dtype: Any | str | None = None):
+        out = super().to_namespace(xp, dtype=dtype)
+        out.beta = self.beta
+        out.log_evidence = self.log_evidence
+        out.log_evidence_error = self.log_evidence_error
+        return out
+
     def to_standard_samples(self):
         """Convert the samples to standard samples."""
         return Samples(
